@@ -6,6 +6,8 @@ import (
 	"strings"
 	"time"
 
+	metav1 "k8s.io/apimachinery/pkg/apis/meta/v1"
+
 	"detsim"
 	"kcsim/world"
 
@@ -109,6 +111,28 @@ type treeRun struct {
 	cancelled bool // the root context was cancelled at some point (Error() then reports it)
 	failAt    int
 	crowd     []*crowdMember
+	shared    []*sharedHandler
+}
+
+// sharedHandler: ONE Handler value attached to two monitors that live at the
+// same time (one logging handler for two controllers, say), next to a third
+// monitor with a handler of its own, all three created at the same quiet moment
+// on the same publisher.
+type sharedHandler struct {
+	parent  *world.NodeRT
+	witness *world.NodeRT
+	mons    [2]kcache.Monitor
+	calls   map[string]int
+	busy    int
+}
+
+func (t *treeRun) sharedBusy() bool {
+	for _, sh := range t.shared {
+		if sh.busy > 0 {
+			return true
+		}
+	}
+	return false
 }
 
 // crowdMember: one of several subscribers that subscribed to the root at the
@@ -362,6 +386,37 @@ func (t *treeRun) act(a TAct) {
 		if a.Block {
 			n.BlockHandler = make(chan struct{})
 		}
+	case "shared-monitors":
+		parent := t.node(a.Node)
+		if a.Node >= 0 && (parent == nil || !parent.IsPublisher()) {
+			return
+		}
+		detsim.Settle()
+		w, err := h.MakeNode(parent, "monitor", world.FilterSpec{}, "")
+		if err != nil {
+			return
+		}
+		sh := &sharedHandler{parent: parent, witness: w, calls: map[string]int{}}
+		hit := func(kind string) {
+			sh.calls[kind]++
+			sh.busy++
+			time.Sleep(time.Duration(a.Ms) * time.Millisecond) // (long enough for the two monitors to overlap)
+			sh.busy--
+		}
+		hv := kcache.BuildHandler().
+			OnInitialize(func([]metav1.Object) { hit("init") }).
+			OnCreate(func(metav1.Object) { hit("create") }).
+			OnUpdate(func(metav1.Object) { hit("update") }).
+			OnDelete(func(metav1.Object) { hit("delete") }).Create()
+		for i := range sh.mons {
+			m, err := kcache.NewMonitor(h.PublisherOf(parent), hv)
+			if err != nil {
+				return
+			}
+			sh.mons[i] = m
+		}
+		detsim.Count("probe:one-handler-value-on-two-live-monitors")
+		t.shared = append(t.shared, sh)
 	case "crowd":
 		// several components wire themselves up at once: Ms goroutines call
 		// Subscribe() on the root at the same moment
@@ -600,7 +655,7 @@ func (t *treeRun) finalChecks() {
 		}
 	}
 	detsim.Settle()
-	for i := 0; i < 2000 && h.MonitorsBusy(); i++ {
+	for i := 0; i < 2000 && (h.MonitorsBusy() || t.sharedBusy()); i++ {
 		time.Sleep(50 * time.Millisecond) // a slow handler finishes its callback before its monitor can notice the shutdown
 		detsim.Settle()
 	}
@@ -636,11 +691,12 @@ func (t *treeRun) finalChecks() {
 		h.CheckTree("survivor:")
 		crowdCheck()
 	}
-	for i := 0; i < 2000 && h.MonitorsBusy(); i++ {
+	for i := 0; i < 2000 && (h.MonitorsBusy() || t.sharedBusy()); i++ {
 		time.Sleep(50 * time.Millisecond) // slow handlers work off their backlog
 		detsim.Settle()
 	}
 	t.sequenceChecks()
+	t.tailChecks()
 	t.stalledChecks()
 	t.monitorChecks()
 	if sc.CloseAtEnd || t.rootDown() {
@@ -852,6 +908,52 @@ func (t *treeRun) sequenceChecks() {
 	}
 }
 
+// tailChecks: after a deliberate Close() of the controller every stage of the
+// fan-out hands on what it was handed before it stops what is below it, so all
+// plain subscribers that lived until then end on the same events - whatever one
+// of them received last, the others received too.
+func (t *treeRun) tailChecks() {
+	h := t.h
+	if h.Overflowed() || !t.sc.NoOverflow || !t.trigRoot || t.cancelled || t.listFailed || t.triggered || t.deafClient() {
+		return
+	}
+	var alive []*world.NodeRT
+	for _, n := range h.Nodes {
+		if n.Sub == nil || n.Mon != nil || n.Reader != "eager" || h.AnyFilteredAncestorOrSelf(n) {
+			continue
+		}
+		individually := false
+		for p := n; p != nil; p = p.Parent {
+			if p.WeClosed {
+				individually = true
+			}
+		}
+		if !individually {
+			alive = append(alive, n)
+		}
+	}
+	if len(alive) < 2 {
+		return
+	}
+	w := alive[0]
+	for _, n := range alive {
+		if len(n.Events) > len(w.Events) {
+			w = n
+		}
+	}
+	ws := world.Sigs(w.Events)
+	detsim.Count("probe:tails-compared-after-controller-close")
+	for _, n := range alive {
+		ns := world.Sigs(n.Events)
+		off := len(ws) - len(ns)
+		for i := range ns {
+			if ws[off+i] != ns[i] {
+				detsim.Fail("subscriber-missed-tail-at-shutdown", "the controller was closed with events in flight: %s and %s both lived until then but do not end on the same events (everything a stage was handed before the shutdown reaches everybody below it)\n  %s: %v\n  %s: %v", n.Name(), w.Name(), n.Name(), ns, w.Name(), ws)
+			}
+		}
+	}
+}
+
 func containsRun(hay, needle []string) bool {
 	if len(needle) == 0 {
 		return true
@@ -875,6 +977,22 @@ func containsRun(hay, needle []string) bool {
 // in order; nothing before readiness when the publisher dies early.
 func (t *treeRun) monitorChecks() {
 	h := t.h
+	for _, sh := range t.shared {
+		// each of the two monitors owes the shared handler one callback per event,
+		// exactly like the third monitor owes its own handler
+		if h.Overflowed() || t.closedByScenario(sh.witness) || sh.witness.Lost() || detsim.IsClosed(sh.mons[0].Done()) || detsim.IsClosed(sh.mons[1].Done()) {
+			continue
+		}
+		own := map[string]int{}
+		for _, c := range sh.witness.MonLog {
+			own[c.Kind]++
+		}
+		for _, k := range []string{"init", "create", "update", "delete"} {
+			if sh.calls[k] != 2*own[k] {
+				detsim.Fail("monitor-missed-event", "one Handler value is attached to two live monitors of %s: together they invoked On%s %d times, a third monitor created at the same quiet moment with a handler of its own invoked it %d times (two monitors, one callback per event each: %d expected)", h.PublisherName(sh.parent), k, sh.calls[k], own[k], 2*own[k])
+			}
+		}
+	}
 	for _, n := range h.Nodes {
 		if n.Mon == nil {
 			continue
